@@ -54,3 +54,18 @@ T('C10', 'generic Coq safety theorem (no panic, fuel-bounded termination, offset
 T('C11', 'Coq proof relating the strict and the fast skip machines on well-formed values; correspondence on valid documents x following byte', _TIE, 'Coq proof with correspondence')
 T('C12', 'Coq theorem on the Decode models (store only on success, null fallback); correspondence with three non-zero initial targets per function', _TIE, 'Coq proof with correspondence')
 T('C13', '256-way table lemmas on the regenerated tokenTypes/whitespace tables, literal machines, reader exclusivity theorem', _TIE, 'Coq proof (finite sweeps + machine lemmas) with correspondence')
+
+P('C06', suites=['c06'], run_files=['Tie.v'], static_files=BASE_STATIC, oracle=True,
+  trusted=['reference string decoder written from the property text (harness/run2.go refString) as oracle'])
+P('C14', suites=['c14'], run_files=['Tie.v'], static_files=BASE_STATIC, oracle=True,
+  trusted=['oracle = the same call sequence with no Buffer'])
+P('C16', suites=['c16'], run_files=['Tie.v'], static_files=BASE_STATIC, oracle=True)
+P('C17', suites=['c17'], run_files=['Tie.v'], static_files=BASE_STATIC + ['Compat.v'], oracle=True,
+  trusted=['unicode/utf8.DecodeRune-based sanitiser as oracle'])
+T('C06', 'Coq model of the string readers over the regenerated escape machines and the \\\\u helpers, tied by correspondence incl. all 65,536 code units and surrogate grids; reference decoder oracle', _TIE, 'Coq proof with model/impl/oracle correspondence')
+T('C14', 'generic Coq theorem: outcomes do not depend on the initial stack contents nor on handler scribbling (zipper stack; handlers only at depth 0); buffer-history correspondence incl. re-entrant handlers', _TIE, 'Coq proof (invariant over histories) with correspondence')
+T('C16', 'Coq theorems on the pure models (append semantics, scratch independence); run-time frame checks of input, destination prefix and result aliasing', _TIE + 'Go string(b) copy semantics is trusted; aliasing is observed at run time.', 'Coq proof with correspondence and run-time frame checks')
+T('C17', 'Coq proof that the model of StdLibCompatibleString equals the Table 3-7 sanitiser, idempotent, identity on valid UTF-8; exhaustive 1-2 byte and class-wise 3-4 byte correspondence', _TIE, 'Coq proof with correspondence')
+
+PROPS['C05']['static_files'] = BASE_STATIC + ['IntSpec.v', 'IntFacts.v']
+PROPS['C17']['static_files'] = BASE_STATIC + ['Compat.v', 'CompatFacts.v']
